@@ -81,15 +81,15 @@ def emit(u, header, self_type):
         Fn('textlen', props=P, ret='r', requires=[('ok', 'self.ok()')], ensures=[('len', 'r == self.e() - self.b()')]),
         Fn('absolute_cursor', props=P, ret='r', requires=[('fits', 'self.b() + cursor <= usize::MAX')], ensures=[('abs', 'r == self.b() + cursor')]),
         Fn('utf8byte', props=P, ret='r',
-           rewrites=[('R-outline', r'self\s*\.store\(\)\s*\.subslice_utf8_offset\(self\.text\(\)\)', SUB),
-                     ('R-expect', r'\.expect\("subslice should succeed"\)', '.unwrap()')],
+           rewrites=[('R-outline', r'self\s*\.store\(\)\s*\.subslice_utf8_offset\(self\.text\(\)\)', SUB, 'opt'),
+                     ('R-expect', r'\.expect\("subslice should succeed"\)', '.unwrap()', 'opt')],
            requires=[('ok', 'self.ok()')],
            ensures=[('ok_iff_inside', 'r is Ok <==> abscursor <= self.e() - self.b()'),
                     ('exact', 'r is Ok ==> Some(r->Ok_0 as int) == self.rel_cb(abscursor as int)')]),
         Fn('utf8byte_to_charpos', props=P, ret='r',
-           rewrites=[('R-outline', r'self\s*\.store\(\)\s*\.subslice_utf8_offset\(self\.text\(\)\)', SUB),
-                     ('R-expect', r'\.expect\("subslice should succeed"\)', '.unwrap()'),
-                     ('R-outline', r'self\.text\(\)\.len\(\)', 'vx_blen(self.text())')],
+           rewrites=[('R-outline', r'self\s*\.store\(\)\s*\.subslice_utf8_offset\(self\.text\(\)\)', SUB, 'opt'),
+                     ('R-expect', r'\.expect\("subslice should succeed"\)', '.unwrap()', 'opt'),
+                     ('R-outline', r'self\.text\(\)\.len\(\)', 'vx_blen(self.text())', 'opt')],
            requires=[('ok', 'self.ok()')],
            ensures=[('ok_iff_boundary', 'r is Ok <==> exists|p: int| 0 <= p <= self.e() - self.b() && self.rel_cb(p) == Some(bytecursor as int)'),
                     ('exact', 'r is Ok ==> r->Ok_0 <= self.e() - self.b() && self.rel_cb(r->Ok_0 as int) == Some(bytecursor as int)')]),
